@@ -119,8 +119,10 @@ CLAIMED = {
              "CheckIPAProof accepts result = <a,b(z)> from the same transcript state, both ending in the same state (premise: "
              "round challenges invertible); b(z) is the unit vector iff the canonical integer of z <= n-1 (switch exactly "
              "between 255 and 256), barycentric coefficients otherwise; <a,e_i> = a_i; folding scalars = recursive doubling; "
-             "toy instance evaluated in the kernel. PARTIAL: <a, bary(z)> = p(z) (C18) and rejection of every other result "
-             "are decided by correspondence (model computes p(z) in coefficient form; points 0,1,254..257,2^64,r-1,...).",
+             "toy instance evaluated in the kernel; the opened value <a,b(z)> equals p(z) for p ANY polynomial of degree < n "
+             "through the committed evaluations, at every field point in or outside the domain (generalised partial fractions; "
+             "instantiated for Fr, n=256, the code's configuration, node premises discharged). PARTIAL: rejection of every "
+             "other result is decided by correspondence (points 0,1,254..257,2^64,r-1,...).",
         note="Rejection of wrong results under Fiat-Shamir needs hash behaviour; differential only.",
         tech="Coq proof (round invariant, induction on k; AAC rewriting for abelian-group regrouping) + differential correspondence", ref="DESIGN.md 6.4"),
     "C05": dict(
@@ -213,10 +215,12 @@ CLAIMED = {
              "their defining products/inverses with the code's index layout and accessors; A'(i) recursion; "
              "ComputeBarycentricCoefficients returns b_i(t)=A(t)/(A'(i)(t-i)); partial fractions sum_i 1/(A'(i)(t-i))=1/A(t) "
              "hence sum_i b_i = 1; DivideOnDomain k f has (f_i-f_k)/(i-k) off the diagonal and the coded diagonal formula, "
-             "and <DivideOnDomain k f, b(t)> = (<f,b(t)>-f_k)/(t-k) for every k and every t outside the domain. PARTIAL: the "
-             "link to coefficient form (<f,b(z)> = p(z); quotient value at k) is decided by correspondence against the "
+             "and <DivideOnDomain k f, b(t)> = (<f,b(t)>-f_k)/(t-k) for every k and every t outside the domain; coefficient "
+             "form: for every polynomial q with at most n coefficients sum_i q(x_i)/(A'(x_i)(t-x_i)) = q(t)/A(t) and "
+             "<evaluations of q, ComputeBarycentricCoefficients(t)> = q(t). PARTIAL: the quotient's value AT node k is "
+             "characterised through the evaluation identity only; correspondence against the "
              "model's coefficient-form interpolation (all 256 k, structured f, all table entries via hook).",
-        note="Coefficient-form interpolation theorem not proved.",
+        note="Invertibility of t - node for out-of-domain t is a run-time premise (true for every t > 255 when r is prime).",
         tech="Coq proof (induction on the domain size, fraction algebra with explicit invertibility) + differential correspondence", ref="DESIGN.md 6.18"),
     "C19": dict(
         text="Theorems for every list / pointer list: ElementsToBytes, BatchToBytesUncompressed, BatchMapToScalarField equal the "
